@@ -66,11 +66,24 @@ Fixpoint mixed_radix (v maxs : list nat) : nat :=
   end.
 Fixpoint pos_of (x : aval) (l : list aval) : nat :=
   match l with [] => 0 | h :: t => if a_eqb x h then 0 else S (pos_of x t) end.
-Definition a_index (t : atype) (x : aval) : nat :=
-  match a_tally t, x with
-  | None, Some v => mixed_radix v (a_max t)
-  | None, None => fold_right Nat.mul 1 (map S (a_max t))      (* domainsize - 1 *)
-  | Some _, _ => pos_of x (domain t)
+Fixpoint pos_list (x : list nat) (l : list (list nat)) : nat :=
+  match l with [] => 0 | h :: t => if a_eqb (Some x) (Some h) then 0 else S (pos_list x t) end.
+(* ATally: position in domain() = (coalition size, rank of the first label tally, rank of the second) in mixed radix,
+   the ranks taken in the filtered product enumeration of a single label tally *)
+Definition tally_index (n k c : nat) : aval -> nat :=
+  let sg := filter (fun x => Nat.leb (sum_nat x) k) (product_ranges (repeat k c)) in
+  let s := length sg in
+  fun x => match x with
+           | None => S n * s * s
+           | Some v => hd 0 v * s * s + pos_list (firstn c (skipn 1 v)) sg * s + pos_list (firstn c (skipn (S c) v)) sg
+           end.
+Definition a_index (t : atype) : aval -> nat :=
+  match a_tally t with
+  | None => fun x => match x with
+                     | Some v => mixed_radix v (a_max t)
+                     | None => fold_right Nat.mul 1 (map S (a_max t))      (* domainsize - 1 *)
+                     end
+  | Some (k, c) => tally_index (hd 0 (a_max t)) k c
   end.
 
 (* ---------------- diagrams ---------------- *)
@@ -172,7 +185,7 @@ Definition add_restrict (d : add) (idx : nat) (value : bool) : option add :=
   end.
 
 (* modelcount: backward dynamic programme over the domain; invalid count by complement *)
-Definition count_row (t : atype) (dom : list aval) (prev : list (list nat)) (n : node) : list nat :=
+Definition count_row (t : atype) (idx : aval -> nat) (dom : list aval) (prev : list (list nat)) (n : node) : list nat :=
   if n_live n
   then map (fun e => match e with
                      | None => 0
@@ -180,16 +193,16 @@ Definition count_row (t : atype) (dom : list aval) (prev : list (list nat)) (n :
                          fold_right Nat.add 0
                            (map (fun c : bool => match a_sub t e (adder n c) with
                                                  | None => 0
-                                                 | Some v => nth (a_index t (Some v)) (nth (child n c) prev []) 0
+                                                 | Some v => nth (idx (Some v)) (nth (child n c) prev []) 0
                                                  end) [false; true])
                      end) dom
   else map (fun _ => 0) dom.
-Definition count_level (t : atype) (dom : list aval) (prev : list (list nat)) (lvl : list node) : list (list nat) :=
-  map (count_row t dom prev) lvl.
+Definition count_level (t : atype) (idx : aval -> nat) (dom : list aval) (prev : list (list nat)) (lvl : list node) : list (list nat) :=
+  map (count_row t idx dom prev) lvl.
 Definition add_modelcount (d : add) : list nat :=
-  let t := d_type d in let dom := domain t in
+  let t := d_type d in let dom := domain t in let idx := a_index t in
   let init := repeat (1 :: repeat 0 (length dom - 1)) (diameter d) in
-  let final := fold_right (fun lvl prev => count_level t dom prev lvl) init (d_levels d) in
+  let final := fold_right (fun lvl prev => count_level t idx dom prev lvl) init (d_levels d) in
   let res := nth (d_root d) final [] in
   firstn (length dom - 1) res ++ [2 ^ length (d_levels d) - sum_nat (firstn (length dom - 1) res)].
 
